@@ -118,6 +118,14 @@ Definition cache_model (c : bool * list cop) : list (cout * nat) :=
                                                   dict(op='get', sub=[], key=f'mean of NaN column {i}'),
                                                   dict(op='goc', sub=['Infinity'], key='NaN', comp=[v], force=True),
                                                   dict(op='get', sub=['Infinity'], key='NaN'))]),
+            # forced computations whose result compares equal to the stored value without being it (1 / True / 1.0, [1] / [1.0])
+            dict(allow_nones=True, ops=[x for i, (a, b) in enumerate(((1, True), (False, 0), ([1, 2], [1.0, 2.0]), ({'n': 0}, {'n': False}), (0.0, -0.0), ('1', 1)))
+                                        for x in (dict(op='goc', sub=[], key=f'k{i}', comp=[a], force=False),
+                                                  dict(op='goc', sub=[], key=f'k{i}', comp=[b], force=True),
+                                                  dict(op='get', sub=[], key=f'k{i}'),
+                                                  dict(op='goc', sub=['s'], key=f'k{i}', comp=[b], force=False),
+                                                  dict(op='goc', sub=['s'], key=f'k{i}', comp=[a], force=True),
+                                                  dict(op='get', sub=['s'], key=f'k{i}'))]),
             # falsy values that are not None, with None refused
             dict(allow_nones=False, ops=[x for v in (0, '', [], {}, False, 0.0) for x in (
                 dict(op='goc', sub=[], key=f'k{v!r}', comp=[v], force=False), dict(op='get', sub=[], key=f'k{v!r}'),
@@ -634,9 +642,72 @@ Fixpoint mouts_eqb (a b : list mout) : bool :=
         return repr(case)
 
 
+class UnstorableValues(Suite):
+    """JsonCache and a computation whose result cannot be written as JSON (an integer beyond 64 bits, a set, a bytes
+    object, nested or not), first and forced over a stored entry: either the call raises and nothing is stored - the
+    earlier entry stays -, or whatever it returns comes back unchanged from every later call.  Runtime check only."""
+    name = 'values_that_cannot_be_stored'
+    model = ''
+    VALUES = {'int_2_64': 2 ** 64, 'int_neg': -2 ** 63 - 1, 'big_nested': {'id': 10 ** 30, 'ok': [1]}, 'set': {1, 2}, 'bytes': b'x',
+              'nested_set': [1, {'k': {3}}], 'int_2_64_minus_1': 2 ** 64 - 1, 'int_2_53': 2 ** 53 + 1}
+
+    def gen(self, rng, tier):
+        return [dict(value=v, over=o, sub=sb) for v in self.VALUES for o in (False, True) for sb in (False, True)]
+
+    def run_impl(self, case):
+        from taskchain.cache import JsonCache, NO_VALUE
+        d = tempfile.mkdtemp(prefix='tcverif-unst-')
+        try:
+            def cache():
+                c = JsonCache(Path(d) / 'root')
+                return c.subcache('s') if case['sub'] else c
+            value = self.VALUES[case['value']]
+            c = cache()
+            if case['over']:
+                c.get_or_compute('k', lambda: 'earlier')
+            calls = []
+            try:
+                got = c.get_or_compute('k', lambda: calls.append(1) or value, force=case['over'])
+                first = ['value', got == value and type(got) is type(value)]
+            except Exception as e:
+                first = ['raised', type(e).__name__]
+            later = cache().get('k')
+            again_calls = []
+            again = cache().get_or_compute('k', lambda: again_calls.append(1) or 'fresh')
+            canon = lambda x: 'NO_VALUE' if x is NO_VALUE else ('same' if (x == value and type(x) is type(value)) else repr(x)[:60])
+            return dict(first=first, calls=len(calls), later=canon(later), again=canon(again), again_calls=len(again_calls))
+        finally:
+            shutil.rmtree(d, ignore_errors=True)
+
+    def oracle(self, case, obs):
+        if 'unexpected_exception' in obs:
+            return f'unexpected exception {obs["unexpected_exception"]}: {obs["text"]}'
+        what = f'{case}: get_or_compute with a result {case["value"]}{" forced over a stored entry" if case["over"] else ""}'
+        if obs['first'][0] == 'raised':
+            want_later = "'earlier'" if case['over'] else 'NO_VALUE'
+            if obs['later'] != want_later:
+                return f'{what} raised {obs["first"][1]}; afterwards get gives {obs["later"]}, expected {want_later} (a failed store leaves things as they were)'
+            want_again = ("'earlier'", 0) if case['over'] else ("'fresh'", 1)
+            if (obs['again'], obs['again_calls']) != want_again:
+                return f'{what} raised; the next unforced call gives {obs["again"]} with {obs["again_calls"]} computation(s), expected {want_again}'
+            return None
+        if obs['first'] != ['value', True] or obs['calls'] != 1:
+            return f'{what} returned another value than the computed one ({obs})'
+        if obs['later'] != 'same' or obs['again'] != 'same' or obs['again_calls']:
+            return (f'{what} returned the value; later get gives {obs["later"]} and the next call {obs["again"]} '
+                    f'({obs["again_calls"]} computations): the stored value does not come back')
+        return None
+
+    def nontrivial(self, case, obs):
+        return True
+
+    def key(self, case):
+        return repr(case)
+
+
 class C14(Prop):
     pid = 'C14'
-    suites = [JsonCacheOps(), NumpyCacheOps(), ArrayAndFrameCaches(), TwoKeysOneShard(), MemoryCacheOps()]
+    suites = [JsonCacheOps(), NumpyCacheOps(), ArrayAndFrameCaches(), TwoKeysOneShard(), MemoryCacheOps(), UnstorableValues()]
     trusted_base = ['orjson round trip of JSON-like values and "no proper prefix of an entry parses" (damaged files are '
                     'produced by truncation at arbitrary byte lengths in the correspondence)']
     assumptions = ['sequential use (concurrency is C15); SHA-256 without collision on the keys that occur']
